@@ -27,6 +27,7 @@ Definition ctx_ok (lg tb : list entry) (x : ctx) : bool :=
   let s := x_sub x in
   (unprimed s ||
    forallb (fun p => implb (stale lg (s_del s) p) (contains_since tb p (s_seen s))) (s_paths s)) &&
+  forallb (fun q => mem_path (fst q) (x_vis x)) (x_pend x) &&
   forallb (fun p =>
     implb (mem_path p (x_vis x))
       match lookup p (x_pend x) with
@@ -91,10 +92,6 @@ Definition begin_ok (s : sub) (now : N) : bool :=
 Definition due_ok (s : sub) : bool :=
   unprimed s || (IMAX <? s_rep_at s + s_max s * 1000) || (report_due_at s <=? s_rep_at s + s_max s * 1000).
 
-(** after the sweep at [now] nothing expired is left in the table *)
-Definition swept_ok (st : state) (now : N) : bool :=
-  forallb (fun s => negb (is_expired s now)) (subs st).
-
 (** a failed report (set_keep_retry) put the subscription back with the watermarks and the
     last-success time it had, and a back-off that is not in the past *)
 Definition retry_ok (x : ctx) (s' : sub) : bool :=
@@ -102,11 +99,8 @@ Definition retry_ok (x : ctx) (s' : sub) : bool :=
   (s_rep_at s' =? s_rep_at (x_sub x)) && (x_now x <=? s_retry_at s') &&
   (s_retry_at s' <=? x_now x + N.max (s_max s') 2 * 1000).
 
-(** after the sweep at [now]: a subscription whose reports are failing is gone one maximum
-    interval after its last success (or, if it has had none since the restart, after it was resumed) *)
+(** after the sweep at [now]: no subscription is left whose last success (or, if it has had none
+    since the restart, its resumption) lies one maximum interval or more in the past *)
 Definition expiry_ok (s : sub) (now : N) : bool :=
-  (s_fail s =? 0) || (now <? s_since s + s_max s * 1000).
+  (IMAX <? s_since s + s_max s * 1000) || (now <? s_since s + s_max s * 1000).
 
-(** * Known finding: a subscription resumed after a restart that has never been
-    primed since ([reported_at = Instant::MAX]) never expires *)
-Definition Known_unprimed_never_expires (s : sub) : Prop := unprimed s = true.
